@@ -403,8 +403,10 @@ struct byte_lexer
 };
 
 // ---------------------------------------------------------------- contexts (C13)
-struct Ctx { int mut = 0; int tag = 7; };
-struct CtxMO { int mut = 0; int tag = 9; CtxMO() = default; CtxMO(const CtxMO&) = delete; CtxMO& operator=(const CtxMO&) = delete; CtxMO(CtxMO&&) = default; };
+// (`last`: a place in the caller's object where a functor may keep its result and hand the library a REFERENCE to it -
+//  the library may read the referent, the object stays the caller's)
+struct Ctx { int mut = 0; int tag = 7; std::optional<Node> last; int refs = 0; };
+struct CtxMO { int mut = 0; int tag = 9; std::optional<Node> last; int refs = 0; CtxMO() = default; CtxMO(const CtxMO&) = delete; CtxMO& operator=(const CtxMO&) = delete; CtxMO(CtxMO&&) = default; };
 inline thread_local const void* tl_ctx_addr = nullptr;
 
 // contextual rule functor (attached with >>=): logs which object it was handed (identity, constness), mutates it if allowed
@@ -454,6 +456,29 @@ struct RuleFCN
     template<typename... A>
     ctpg::no_type operator()(A&&... a) const { const RuleFC f{r}; f(std::forward<A>(a)...); return {}; }
 };
+// a contextual functor that KEEPS its result in the caller's object and returns an lvalue reference to it (a symbol table
+// entry, an accumulated list): what the caller finds in the object afterwards must be what the functor left there
+struct RuleFCR
+{
+    int r;
+    template<typename... A, std::enable_if_t<!first_is_ctx<A...>::value, int> = 0>
+    Node operator()(A&&... a) const { const RuleFC f{r}; return f(std::forward<A>(a)...); }
+    template<typename C, typename... A, std::enable_if_t<is_ctx<C>::value, int> = 0>
+    decltype(auto) operator()(C&& ctx, A&&... a) const
+    {
+        const RuleFC f{r};
+        if constexpr (!std::is_const_v<std::remove_reference_t<C>> && !std::is_same_v<std::decay_t<C>, ctpg::no_type>)
+        {
+            Node n = f(ctx, std::forward<A>(a)...);
+            ctx.last.emplace(std::move(n)); ctx.refs++;
+            return static_cast<Node&>(*ctx.last);
+        }
+        else
+            return f(std::forward<C>(ctx), std::forward<A>(a)...);
+    }
+};
+// what the caller reads in its context after the call: the mutation count, negative when a kept result is gone
+template<typename C> long ctx_after(const C& c) { return (c.refs && (!c.last || !c.last->t)) ? -1000 - c.mut : c.mut; }
 
 // ---------------------------------------------------------------- job / trace plumbing
 struct Job
@@ -568,12 +593,12 @@ std::optional<Node> parse_with(const P& p, const Job& j, std::string& stream_tex
             if (j.verbose || !j.ws || !j.nl)
             {
                 utils::no_stream ns;
-                if (j.ctx == 1) { Ctx c; tl_ctx_addr = &c; auto r = p.context_parse(c, o, buf, ns); L.ctxmut = c.mut; return r; }
-                if (j.ctx == 2) { const Ctx c; tl_ctx_addr = &c; auto r = p.context_parse(c, o, buf, ns); L.ctxmut = c.mut; return r; }
+                if (j.ctx == 1) { Ctx c; tl_ctx_addr = &c; auto r = p.context_parse(c, o, buf, ns); L.ctxmut = ctx_after(c); return r; }
+                if (j.ctx == 2) { const Ctx c; tl_ctx_addr = &c; auto r = p.context_parse(c, o, buf, ns); L.ctxmut = ctx_after(c); return r; }
                 return p.parse(o, buf, ns);
             }
-            if (j.ctx == 1) { Ctx c; tl_ctx_addr = &c; auto r = p.context_parse(c, buf); L.ctxmut = c.mut; return r; }      // context_parse(ctx, buffer)
-            if (j.ctx == 2) { const Ctx c; tl_ctx_addr = &c; auto r = p.context_parse(c, buf); L.ctxmut = c.mut; return r; }
+            if (j.ctx == 1) { Ctx c; tl_ctx_addr = &c; auto r = p.context_parse(c, buf); L.ctxmut = ctx_after(c); return r; }      // context_parse(ctx, buffer)
+            if (j.ctx == 2) { const Ctx c; tl_ctx_addr = &c; auto r = p.context_parse(c, buf); L.ctxmut = ctx_after(c); return r; }
             return p.parse(buf);
         }
         if (j.stream == 2)
@@ -597,11 +622,11 @@ std::optional<Node> parse_with(const P& p, const Job& j, std::string& stream_tex
         // they forward to the long ones, and that forwarding is part of what is validated
         const bool dflt_opts = !j.verbose && j.ws && j.nl;
         if (j.ctx == 0) return dflt_opts ? p.parse(buf, cs) : p.parse(o, buf, cs);
-        if (j.ctx == 1) { Ctx c; tl_ctx_addr = &c; auto r = dflt_opts ? p.context_parse(c, buf, cs) : p.context_parse(c, o, buf, cs); L.ctxmut = c.mut; return r; }
-        if (j.ctx == 2) { const Ctx c; tl_ctx_addr = &c; auto r = dflt_opts ? p.context_parse(c, buf, cs) : p.context_parse(c, o, buf, cs); L.ctxmut = c.mut; return r; }
-        if (j.ctx == 3) { Ctx c; tl_ctx_addr = &c; auto r = dflt_opts ? p.context_parse(std::move(c), buf, cs) : p.context_parse(std::move(c), o, buf, cs); L.ctxmut = c.mut; return r; }
-        if (j.ctx == 4) { CtxMO c; tl_ctx_addr = &c; auto r = dflt_opts ? p.context_parse(c, buf, cs) : p.context_parse(c, o, buf, cs); L.ctxmut = c.mut; return r; }
-        { CtxMO c; tl_ctx_addr = &c; auto r = dflt_opts ? p.context_parse(std::move(c), buf, cs) : p.context_parse(std::move(c), o, buf, cs); L.ctxmut = c.mut; return r; }
+        if (j.ctx == 1) { Ctx c; tl_ctx_addr = &c; auto r = dflt_opts ? p.context_parse(c, buf, cs) : p.context_parse(c, o, buf, cs); L.ctxmut = ctx_after(c); return r; }
+        if (j.ctx == 2) { const Ctx c; tl_ctx_addr = &c; auto r = dflt_opts ? p.context_parse(c, buf, cs) : p.context_parse(c, o, buf, cs); L.ctxmut = ctx_after(c); return r; }
+        if (j.ctx == 3) { Ctx c; tl_ctx_addr = &c; auto r = dflt_opts ? p.context_parse(std::move(c), buf, cs) : p.context_parse(std::move(c), o, buf, cs); L.ctxmut = ctx_after(c); return r; }
+        if (j.ctx == 4) { CtxMO c; tl_ctx_addr = &c; auto r = dflt_opts ? p.context_parse(c, buf, cs) : p.context_parse(c, o, buf, cs); L.ctxmut = ctx_after(c); return r; }
+        { CtxMO c; tl_ctx_addr = &c; auto r = dflt_opts ? p.context_parse(std::move(c), buf, cs) : p.context_parse(std::move(c), o, buf, cs); L.ctxmut = ctx_after(c); return r; }
     };
     if (j.buf == 1)
     {
